@@ -476,6 +476,20 @@ class FakeNumpy:
         return isinstance(x, complex)
 
     @staticmethod
+    def isrealobj(x):
+        return not FakeNumpy.iscomplexobj(x)
+
+    @staticmethod
+    def zeros_like(a, dtype=None, **k):
+        a = as_arr(a)
+        return FakeNumpy.zeros(list(a.shape), dtype=dtype if dtype is not None else {'real': float, 'complex': complex, 'int': int, 'bool': bool}[a.dt])
+
+    @staticmethod
+    def ones_like(a, dtype=None, **k):
+        a = as_arr(a)
+        return FakeNumpy.ones(list(a.shape), dtype=dtype if dtype is not None else {'real': float, 'complex': complex, 'int': int, 'bool': bool}[a.dt])
+
+    @staticmethod
     def isscalar(x):
         return isinstance(x, (int, float, complex, Size)) or (isinstance(x, Arr) and x.ndim == 0)
 
